@@ -143,9 +143,13 @@ func c16Sequence(l CfgLit, seq int, until string) (*vlib.Req, *vlib.Failure) {
 }
 
 func c16Invariants(k c16Case, base, res vlib.Resp) *vlib.Failure {
+	suppliedLines := map[string]bool{}
+	for _, l := range k.Req.Hdr["Access-Control-Request-Headers"] {
+		suppliedLines[l] = true
+	}
 	for hk, hv := range res.Hdr {
 		for _, v := range hv {
-			if strings.Contains(strings.ToLower(v), "canary") {
+			if strings.Contains(strings.ToLower(v), "canary") && !suppliedLines[v] {
 				return vlib.Failf("response discloses a configured value the request never mentioned: %s: %q", hk, v)
 			}
 		}
@@ -349,6 +353,35 @@ func checkC16(c *vlib.Ctx) (string, string) {
 			ck.Report(c16Case{Cfg: l, Req: *r, Seq: seq}, f)
 		}
 	})
+	// large allowed list, requested names spread over many field lines (1..70 lines, one or two names each, with up
+	// to 16 empty lines): the answer names what was asked for, never the configured list
+	var bigNames []string
+	for i := 0; i < 40; i++ {
+		bigNames = append(bigNames, fmt.Sprintf("X-Canary-H%02d", i))
+	}
+	for _, cred := range []bool{false, true} {
+		big := CfgLit{Origins: []string{"https://a.example", co}, Credentialed: cred, Methods: []string{"PUT", cm}, RequestHeaders: bigNames, ResponseHeaders: []string{cr}, MaxAge: 30}
+		for nLines := 1; nLines <= 70; nLines++ {
+			for _, empties := range []int{0, 16} {
+				var lines []string
+				for i := 0; i < nLines && i < 40; i++ {
+					lines = append(lines, fmt.Sprintf("x-canary-h%02d", i))
+				}
+				for i := 40; i < nLines; i++ {
+					lines = append(lines, "") // more lines than names: the surplus lines are empty (at most 16 may be)
+				}
+				for i := 0; i < empties && nLines <= 40; i++ {
+					lines = append(lines[:i*2%len(lines)+0], append([]string{""}, lines[i*2%len(lines):]...)...)
+				}
+				k := c16Case{Cfg: big, Req: vlib.Req{Method: "OPTIONS", Hdr: map[string][]string{"Origin": {"https://a.example"}, "Access-Control-Request-Method": {"PUT"}, "Access-Control-Request-Headers": lines}}}
+				c.States.Add(1)
+				c.Transitions.Add(2)
+				if ck.Try(k) {
+					c.Nontrivial.Add(1)
+				}
+			}
+		}
+	}
 	c.Set("sequence_passes", 2*len(cfgs))
 	c.States.Add(prod.Count())
 	c.Transitions.Add(2 * prod.Count())
